@@ -92,6 +92,15 @@ func (c *collector) loadFindings() {
 	if path == "" {
 		path = "/verif/known_findings.json"
 	}
+	c.loadFindingsFile(path)
+	// VERIF_KNOWN_FINDINGS_EXTRA: a second list (same format) for experiments;
+	// the driver always points VERIF_KNOWN_FINDINGS at the registered list.
+	if extra := os.Getenv("VERIF_KNOWN_FINDINGS_EXTRA"); extra != "" {
+		c.loadFindingsFile(extra)
+	}
+}
+
+func (c *collector) loadFindingsFile(path string) {
 	b, err := os.ReadFile(path)
 	if err != nil {
 		return
